@@ -773,6 +773,18 @@ func (c *Ctx) arithResult(s *State, at ast.Node, mathRes string, t types.Type) V
 	return IntV{mathRes}
 }
 
+// arithResultNoOvf wraps a mathematical result into type t (wrap-around for both signednesses, no obligations).
+func (c *Ctx) arithResultNoOvf(mathRes string, t types.Type) string {
+	bits, signed, ok := intRange(t)
+	if !ok {
+		return mathRes
+	}
+	if signed {
+		return wrapS(mathRes, bits)
+	}
+	return wrapU(mathRes, bits)
+}
+
 func truncDiv(a, b string) string {
 	return ite(ge(a, "0"),
 		ite(gt(b, "0"), app("div", a, b), sub("0", app("div", a, sub("0", b)))),
